@@ -146,7 +146,7 @@ def run(ctx):
                 dist["with_notes"] += 1
             if g.comment_ids:
                 dist["with_comments"] += 1
-            meta = {"body": [xml_json(x) for x in pkg.body], "options": opts, "index": i,
+            meta = {"package": gen_xml.pkg_json(pkg), "body": [xml_json(x) for x in pkg.body], "options": opts, "index": i,
                     "rels": pkg.rels,
                     "footnotes": [xml_json(x) for x in (pkg.footnotes or [])], "endnotes": [xml_json(x) for x in (pkg.endnotes or [])],
                     "comments": [xml_json(x) for x in (pkg.comments or [])]}
@@ -174,12 +174,7 @@ def run(ctx):
 
 def replay(ctx, rep):
     r = rep["replay"]
-    pkg = gen_xml.Package()
-    pkg.body = [gen_xml.xml_from_json(j) for j in r["body"]]
-    pkg.rels = [tuple(x) for x in r.get("rels", [])]
-    for k in ("footnotes", "endnotes", "comments"):
-        if r.get(k):
-            setattr(pkg, k, [gen_xml.xml_from_json(j) for j in r[k]])
+    pkg = gen_xml.pkg_from_json(r["package"])
     data, _ = B.build(pkg)
     html, _ = A.run_impl(data, r["options"], None)
     bad = repr(html) if isinstance(html, Exception) else oracle(pkg, r["options"]["id_prefix"] or "", html.value, True)
